@@ -1850,7 +1850,7 @@ class DynamicSeedingInstrumentation(transformer.DynamicSeedingInstrumentationAda
                 code_object_id,
                 node,
                 maybe_compare,
-                maybe_compare_index,
+                node.index_of(maybe_compare),
             )
             return
 
@@ -1868,7 +1868,7 @@ class DynamicSeedingInstrumentation(transformer.DynamicSeedingInstrumentationAda
                 code_object_id,
                 node,
                 maybe_string_func,
-                maybe_string_func_index,
+                node.index_of(maybe_string_func),
             )
             return
 
@@ -1887,7 +1887,7 @@ class DynamicSeedingInstrumentation(transformer.DynamicSeedingInstrumentationAda
                         code_object_id,
                         node,
                         maybe_string_func_with_arg,
-                        maybe_string_func_with_arg_index,
+                        node.index_of(maybe_string_func_with_arg),
                     )
                 case "endswith":
                     self.visit_endswith_function(
@@ -1896,7 +1896,7 @@ class DynamicSeedingInstrumentation(transformer.DynamicSeedingInstrumentationAda
                         code_object_id,
                         node,
                         maybe_string_func_with_arg,
-                        maybe_string_func_with_arg_index,
+                        node.index_of(maybe_string_func_with_arg),
                     )
 
     def visit_compare_op(  # noqa: D102, PLR0917
